@@ -179,6 +179,23 @@ def _is_nonempty_test(test) -> bool:
         return False
 
 
+def _mentions_closure(defs, expr, names, depth=4):
+    """which of `names` the value of expr can depend on, following locals through all their definitions (loop targets -> the iterable)"""
+    out, seen, work = set(), set(), [(expr, depth)]
+    while work:
+        e, d = work.pop()
+        for n in ast.walk(e):
+            if isinstance(n, ast.Name):
+                if n.id in names:
+                    out.add(n.id)
+                elif d > 0 and n.id not in seen and n.id in defs:
+                    seen.add(n.id)
+                    for df in defs[n.id]:
+                        if df.value is not None and df.kind in ("assign", "unpack", "aug", "walrus"):
+                            work.append((df.value, d - 1))
+    return out
+
+
 def writer_sides(rep):
     fi = rep.f(ITSC, "ITSConstruction.construct")
     defs = local_defs(fi.node)
@@ -196,7 +213,7 @@ def writer_sides(rep):
                         continue
                     for side, (e, own, other) in enumerate(((v.elts[0], G, H), (v.elts[1], H, G))):
                         src = origin(defs, e)
-                        m = mentions(src, [G, H])
+                        m = _mentions_closure(defs, src, [G, H])
                         ok = own in m and other not in m
                         rep.ob("O1.2", "SIDE", fi, ok, f"typesGH[{side}] = {norm(e)}",
                                f"member {side} of typesGH is computed from {own} only", {"mentions": sorted(m)})
@@ -217,22 +234,31 @@ def writer_sides(rep):
             continue
         for side, (e, own, other) in enumerate(((v.elts[0], G, H), (v.elts[1], H, G))):
             src = origin(defs, e)
-            m = mentions(src, [G, H])
+            m = _mentions_closure(defs, src, [G, H])
             rep.ob("O1.2", "SIDE", fi, own in m and other not in m, f"order[{side}] = {norm(src)}",
                    f"component {side} of the order pair is read from {own} only", {"mentions": sorted(m)})
             if isinstance(src, ast.IfExp):
+                present, absent = src.body, src.orelse
                 ok_test = (isinstance(src.test, ast.Call) and call_name(src.test) == "has_edge"
                            and dotted(src.test.func.value) == own)
+                if not ok_test:
+                    # data = X.get_edge_data(u, v) ... `<absent> if data is None else data.get('order', ..)`
+                    mt = pmatch("$d is None", src.test)
+                    dsrc = origin(defs, ast.Name(id=mt["d"], ctx=ast.Load())) if mt else None
+                    if isinstance(dsrc, ast.Call) and call_name(dsrc) == "get_edge_data" and dotted(dsrc.func.value) == own and len(dsrc.args) >= 2 \
+                            and (len(dsrc.args) < 3 or is_const(dsrc.args[2], None)) and (kwarg(dsrc, "default") is None or is_const(kwarg(dsrc, "default"), None)):
+                        ok_test = True
+                        present, absent = src.orelse, src.body
                 rep.ob("O1.2", "SIDE", fi, ok_test, f"order[{side}] presence test {norm(src.test)}",
                        f"bond presence is tested on {own}")
                 try:
-                    z = const(src.orelse)
+                    z = const(absent)
                     okz = z == 0
                 except ValueError:
                     okz = None
-                rep.ob("O1.2", "CMP", fi, okz, f"order[{side}] absent value {norm(src.orelse)}",
+                rep.ob("O1.2", "CMP", fi, okz, f"order[{side}] absent value {norm(absent)}",
                        "a bond absent on this side is encoded as order 0")
-                getk = [g for g in ast.walk(src.body) if isinstance(g, ast.Call) and call_name(g) == "get"]
+                getk = [g for g in ast.walk(present) if isinstance(g, ast.Call) and call_name(g) == "get"]
                 okk = bool(getk) and getk[0].args and is_const(getk[0].args[0], "order")
                 rep.ob("O1.2", "R3b", fi, okk, f"order[{side}] key", "bond order is read from the 'order' attribute")
             else:
